@@ -42,9 +42,8 @@ def _self_check(rep):
     if r.error:
         raise ToolError("MC_FrontEnd: TLC error:\n" + r.error)
     if r.invariant:
-        rep.violation("model checking MC_FrontEnd: invariant %s violated (the monitor's step operators do not refine IR!StepBlock / Pcode!RunBlock)" % r.invariant[0],
-                      None, 0, r.cex())
-        return
+        raise ToolError("MC_FrontEnd: invariant %s violated - the monitor's step operators do not refine IR!StepBlock / Pcode!RunBlock (specification "
+                        "modules inconsistent):\n%s" % (r.invariant[0], r.cex()[:3000]))
     if not r.finished_ok:
         raise ToolError("MC_FrontEnd: TLC did not finish cleanly:\n" + r.out[-3000:])
     bad, oc = set(_lines(r, "BAD")), set(_lines(r, "OUTCLASS"))
@@ -278,6 +277,27 @@ def _canary(rep, files, results):
                      "accepted IR functions were both rejected by FrontEndMonitor")
 
 
+def _refinement(rep, src, n):
+    """(M on recorded constants) the refinement self-checks of the monitor on the first n recorded cases: in every state of their
+    behaviours the re-composed IR step without renumbering IS IR!StepBlock (IStepOK) and PcodeFn!StepBlock refines Pcode!RunBlock, the
+    block semantics of C11 (PStepOK)."""
+    path = os.path.join(core.BUILD, "traces", "X08_refinement.ndjson")
+    with open(path, "w") as f:
+        f.write("\n".join(core.read_lines(src)[:n]) + "\n")
+    r = core.tlc(TRACE_SPEC, cfg="T_X08_ref.cfg", trace=path, workers=1, timeout=3600, env=_jenv())
+    rep.add_tlc(r)
+    if r.error:
+        raise ToolError("refinement self-check: TLC error:\n" + r.error)
+    if r.invariant:
+        raise ToolError("refinement self-check: invariant %s violated on recorded cases - PcodeFn.tla / FrontEndMonitor.tla do not refine Pcode.tla / "
+                        "IR.tla (specification modules inconsistent):\n%s" % (r.invariant[0], "\n".join(x[:300] for x in r.cex().splitlines())[:4000]))
+    if not r.finished_ok:
+        raise ToolError("refinement self-check: TLC did not finish cleanly:\n" + r.out[-3000:])
+    rep.cov.setdefault("mc_runs", []).append({"instance": "T_X08_ref (IStepOK, PStepOK on the first %d recorded cases)" % n,
+                                             "states_generated": r.generated, "distinct_states": r.distinct, "wall_s": round(r.wall, 1)})
+    log("[mc] refinement self-check on %d recorded cases: %d states, %.1fs" % (n, r.distinct, r.wall))
+
+
 def check(seed, tier):
     rep = Report("X08", seed, tier)
     core.build_harness()
@@ -288,7 +308,10 @@ def check(seed, tier):
         meta = core.gen("X08", seed, tier, shards=3 if quick else 12)
         results, stats = _validate(rep, meta["files"], parallel=3, timeout=1800 if quick else 7200)
         mc.result()
-    _canary(rep, meta["files"], results)
+    with cf.ThreadPoolExecutor(max_workers=1) as pool:
+        ref = pool.submit(_refinement, rep, meta["files"][-1], 6 if quick else 48)
+        _canary(rep, meta["files"], results)
+        ref.result()
     x = meta["extra"]
     lines = core.read_lines(meta["files"][0])
     rep.traces, rep.events = meta["cases"], stats["behaviours"]
